@@ -49,18 +49,66 @@ def run(idx: Index, rep: Report, tier: str) -> None:
     static_sets = {norm(a.targets[0]) for a in walk_no_nested(gpp.node) if isinstance(a, ast.Assign) and isinstance(a.value, ast.Call) and call_name(a.value) == "get_static_fluents"}
     and_lists = {norm(a.targets[0]) for a in walk_no_nested(gpp.node) if isinstance(a, ast.Assign) and isinstance(a.value, ast.Call) and call_name(a.value) == "split_all_ands"}
     apps = [(n, c) for n, c in cfg_nodes_with_call(cfg, "append") if norm(c.func.value) in cond_lists]
-    if len(apps) < 1:
+
+    # the same filter written as a comprehension (`[c for c in split_all_ands(…) if c.is_fluent_exp() and …]`), here
+    # or in a helper (function of the module / private method) whose result is the list handed to the pruning
+    def _comprehension_sites(fn_node, names, smap):
+        out = []
+        for a in walk_no_nested(fn_node):
+            val = None
+            if isinstance(a, ast.Assign) and len(a.targets) == 1 and norm(a.targets[0]) in names:
+                val = a.value
+            elif isinstance(a, ast.Return) and names == {"<return>"}:
+                val = a.value
+            if isinstance(val, (ast.ListComp, ast.GeneratorExp, ast.SetComp)) and len(val.generators) == 1 and isinstance(val.elt, ast.Name) and norm(val.generators[0].target) == val.elt.id:
+                g = val.generators[0]
+                fs = set()
+                for t in g.ifs:
+                    fs |= _conjuncts(t, True)
+                for k, v_ in smap.items():
+                    fs = {x.replace(f" in {k}", f" in {v_}") for x in fs}
+                out.append((val.elt.id, fs, a, norm(g.iter)))
+        return out
+
+    comp_sites = _comprehension_sites(gpp.node, cond_lists, {})
+    helper_sites = []
+    helper_and_lists = set()
+    for a in walk_no_nested(gpp.node):
+        if isinstance(a, ast.Assign) and len(a.targets) == 1 and norm(a.targets[0]) in cond_lists and isinstance(a.value, ast.Call):
+            hn = call_name(a.value)
+            cands = [f_ for f_ in idx.all_funcs() if f_.node.name == hn and f_.module is gpp.module]
+            for h in cands[:1]:
+                hp = [p_ for p_ in h.params() if p_ != "self"]
+                smap = {p_: norm(arg) for p_, arg in zip(hp, a.value.args)}
+                rep.note_function(h.qualname)
+                helper_and_lists |= {norm(x.targets[0]) for x in walk_no_nested(h.node) if isinstance(x, ast.Assign) and isinstance(x.value, ast.Call) and call_name(x.value) == "split_all_ands"}
+                helper_sites += _comprehension_sites(h.node, {"<return>"}, smap)
+                hcfg = cfg_of(h)
+                rets = {norm(r.value) for r in walk_no_nested(h.node) if isinstance(r, ast.Return) and isinstance(r.value, ast.Name)}
+                for hn_, hc in cfg_nodes_with_call(hcfg, "append"):
+                    if norm(hc.func.value) in rets and hc.args:
+                        fs = set()
+                        for t, o in guards_dominating(hcfg, hn_):
+                            fs |= _conjuncts(t.ast, o)
+                        for k, v_ in smap.items():
+                            fs = {x.replace(f" in {k}", f" in {v_}") for x in fs}
+                        encl = [l for l in hcfg.nodes if l.kind == "for" and any(x is hc for st in l.owner.body for x in ast.walk(st))]
+                        helper_sites.append((norm(hc.args[0]), fs, hc, norm(encl[-1].owner.iter) if encl else "?"))
+    if len(apps) + len(comp_sites) + len(helper_sites) < 1:
         raise AnalysisError("anchor vanished: no list is filled and handed to _purge_items_list(conds=…) in get_possible_parameters")
+    sites = []
     for n, c in apps:
         facts: Set[str] = set()
         for t, outcome in guards_dominating(cfg, n):
             facts |= _conjuncts(t.ast, outcome)
-        v = norm(c.args[0])
+        sites.append((norm(c.args[0]), facts, c))
+    sites += [(v_, fs, node) for v_, fs, node, _ in comp_sites + helper_sites]
+    for v, facts, c in sites:
         need = {(f"{v}.is_fluent_exp()",): "a positive fluent literal", (f"{v}.fluent().type.is_bool_type()",): "a Boolean fluent", tuple(f"{v}.fluent() in {S}" for S in sorted(static_sets)) or (f"{v}.fluent() in <static fluents>",): "a static fluent"}
         for ks, why in need.items():
             k = next((x for x in ks if x in facts), ks[0])
             rep.check(k in facts, rule1, f"condition used for pruning is {why}", gpp.loc(c), construct=k, detail="" if k in facts else f"a condition reaches the static-fluent pruning without the guard `{k}`: groundings that some valid plan needs can be dropped", function=gpp.qualname)
-    rep.count("prune_append_sites", len(apps))
+    rep.count("prune_append_sites", len(sites))
     # problem_static_fluents really is the static set
     sf = [a for a in walk_no_nested(gpp.node) if isinstance(a, ast.Assign) and norm(a.targets[0]) in static_sets]
     ok = bool(sf) and all(norm(a.value) == "self._problem.get_static_fluents()" for a in sf)
@@ -77,6 +125,9 @@ def run(idx: Index, rep: Report, tier: str) -> None:
         kw = {k.arg: norm(k.value) for k in c.keywords}
         rep.check(kw.get("conds") in cond_lists, rule1, "pruning receives only the filtered conditions", gpp.loc(c), construct=f"conds={kw.get('conds')}", function=gpp.qualname)
     # conditions come from top-level conjuncts only
+    for v_, fs, node, it in comp_sites + helper_sites:
+        ok = it in and_lists or it in helper_and_lists or it.startswith("split_all_ands(")
+        rep.check(ok, rule1, "pruning conditions are top-level conjuncts (split_all_ands)", gpp.loc(node) if node in list(ast.walk(gpp.node)) else gpp.loc(), construct=f"for … in {it}", detail="" if ok else "the conditions used for pruning are not taken from the top-level conjunction: a literal under a disjunction or negation would prune groundings that do satisfy the precondition", function=gpp.qualname)
     for n, c in apps:
         encl = [l for l in cfg.nodes if l.kind == "for" and any(x is c for st in l.owner.body for x in ast.walk(st))]
         ok = bool(encl) and all(norm(l.owner.iter) in and_lists for l in encl[-1:])
@@ -137,10 +188,18 @@ def run(idx: Index, rep: Report, tier: str) -> None:
     gdu = DefUse(cfg)
     ds_vals = {norm(a.targets[0]) for a in walk_no_nested(gpp.node) if isinstance(a, ast.Assign) and isinstance(a.value, ast.Call) and call_name(a.value) == "domain_size"}
     ds_lists = {norm(c.func.value) for c in walk_no_nested(gpp.node) if isinstance(c, ast.Call) and call_name(c) == "append" and c.args and norm(c.args[0]) in ds_vals}
+    # … or built in one go: `sizes = [domain_size(problem, t) for t in types]`
+    ds_lists |= {norm(a.targets[0]) for a in walk_no_nested(gpp.node) if isinstance(a, ast.Assign) and len(a.targets) == 1 and isinstance(a.value, (ast.ListComp, ast.GeneratorExp)) and isinstance(a.value.elt, ast.Call) and call_name(a.value.elt) == "domain_size"}
     ok = bool(rng) and bool(ds_lists)
     for c in rng:
-        encl = [l for l in walk_no_nested(gpp.node) if isinstance(l, ast.For) and any(x is c for st in l.body for x in ast.walk(st)) and any(isinstance(x, ast.Name) and x.id in ds_lists for x in ast.walk(l.iter))]
-        sizes = {x.id for l in encl for x in ast.walk(l.target) if isinstance(x, ast.Name)}
+        # the name given to range() is bound by a for statement or a comprehension clause that iterates the sizes
+        binders = []
+        for l in ast.walk(gpp.node):
+            if isinstance(l, ast.For) and any(x is c for st in l.body for x in ast.walk(st)):
+                binders.append((l.target, l.iter))
+            elif isinstance(l, (ast.ListComp, ast.GeneratorExp, ast.SetComp, ast.DictComp)) and any(x is c for x in ast.walk(l)):
+                binders += [(g.target, g.iter) for g in l.generators]
+        sizes = {x.id for tg, it in binders if any(isinstance(y, ast.Name) and y.id in ds_lists for y in ast.walk(it)) for x in ast.walk(tg) if isinstance(x, ast.Name)}
         ok = ok and len(c.args) == 1 and isinstance(c.args[0], ast.Name) and c.args[0].id in sizes
     rep.check(ok, rule2, "each domain is enumerated from 0 to its size", gpp.loc(rng[0]) if rng else gpp.loc(), construct=norm(rng[0]) if rng else "", function=gpp.qualname)
 
